@@ -32,7 +32,12 @@
 (*  "the buffered data stays intact and readable"   the Snap / Read events *)
 (*                                          after a failed save            *)
 (*  "a later save can still succeed"        Save(~ok) only if a Keep write *)
-(*                                          failed during that very save   *)
+(*                                          failed since the PREVIOUS save *)
+(*                                          returned (in the background or *)
+(*                                          during this save: an error may *)
+(*                                          be reported late, but once: a  *)
+(*                                          save with no failed write      *)
+(*                                          since the last one succeeds)   *)
 (*  "loading any valid manifest and saving it unchanged preserves every    *)
 (*   file's content and the total size"     scenarios that start from a    *)
 (*                                          generated manifest and save    *)
@@ -46,18 +51,18 @@
 EXTENDS CollFS
 
 VARIABLES insave,      \* a save call is in progress
-          nfail        \* Keep writes that failed since that call began
+          nfail        \* Keep writes that failed since the previous save returned (or since the start)
 
 svars == <<insave, nfail>>
 allvars == <<fsvars, svars>>
 
 StoreInit == insave = FALSE /\ nfail = 0
 
-PutB(ok) == /\ nfail' = IF insave /\ ~ok THEN nfail + 1 ELSE nfail
+PutB(ok) == /\ nfail' = IF ~ok THEN nfail + 1 ELSE nfail
             /\ UNCHANGED <<fsvars, insave>>
 
-SaveCall == /\ insave' = TRUE /\ nfail' = 0
-            /\ UNCHANGED fsvars
+SaveCall == /\ insave' = TRUE
+            /\ UNCHANGED <<fsvars, nfail>>
 
 -----------------------------------------------------------------------------
 (* Format semantics (doc/architecture/manifest-format): the data stream of a *)
@@ -105,8 +110,8 @@ Save(ok, m) ==
             /\ BlocksOK(m)
             /\ SemOK(m)
             /\ MListing(m) = Listing(1, <<>>)             \* same directories, names, contents
-       ELSE nfail > 0                                     \* a save without a failed write succeeds
-    /\ insave' = FALSE /\ UNCHANGED <<fsvars, nfail>>
+       ELSE nfail > 0                                     \* some Keep write failed since the previous save returned
+    /\ insave' = FALSE /\ nfail' = 0 /\ UNCHANGED fsvars
 
 (* the saved text loaded into a second filesystem by the real loader and walked *)
 Reload(ok, ents, total) ==
